@@ -859,6 +859,13 @@ class Frame:
             raise Unsupported('arity mismatch calling %s: %d args for %d params' % (f.name, len(args), len(f.arg_types)))
         for i, a in enumerate(args):
             self.cell(i + 1).v = a
+        ct = getattr(ex, 'call_trace', None)
+        if ct:
+            info = ex.prog.impl_of.get(f.name)
+            if info is not None:
+                meth = f.name.split('::')[-1].split('#')[0]
+                if (strip_generics(info.self_ty), meth) in ct:
+                    ex.events.append(('enter', strip_generics(info.self_ty), meth, tuple(args[1:2])))
         ex.depth += 1
         if ex.depth > 200:
             raise Unsupported('call depth exceeded in ' + f.name)
